@@ -28,9 +28,9 @@ pub fn zlib_lensweep_comps() -> Vec<Comp> {
 
 pub fn grid_texts(ctx: &Ctx) -> Vec<(usize, usize)> {
     if ctx.quick() {
-        vec![(1, 4096), (2, 4096), (3, 3000), (8, 12_000)]
+        vec![(1, 4096), (2, 4096), (3, 3000), (8, 12_000), (9, 12_000), (10, 4000)]
     } else {
-        vec![(0, 4096), (1, 4096), (2, 4096), (3, 3000), (4, 2048), (8, 12_000), (1, 65536), (2, 70000), (8, 140_000), (5, 200_000)]
+        vec![(0, 4096), (1, 4096), (2, 4096), (3, 3000), (4, 2048), (8, 12_000), (9, 12_000), (9, 40_000), (10, 4000), (1, 65536), (2, 70000), (8, 140_000), (5, 200_000)]
     }
 }
 
@@ -74,6 +74,20 @@ pub fn shared_stream_spaces(ctx: &Ctx, st: &mut Local, f: Sink) {
     e2_padspace(ctx, "E2p", st, f);
     e3_dynspace(ctx, "E3", st, f);
     e5_devspace(ctx, "E5", &dev_specs(ctx), st, f);
+    // one reference per stream at the length / distance boundaries
+    {
+        let dists: Vec<u16> = if ctx.quick() {
+            e4_quick_dists().into_iter().filter(|d| *d <= 8 || *d >= 250).collect()
+        } else {
+            let mut v = e4_quick_dists();
+            v.extend((301..32768u32).step_by(61).map(|d| d as u16));
+            v.sort();
+            v.dedup();
+            v
+        };
+        let lens: &[u16] = if ctx.quick() { &[3, 4, 258] } else { &[3, 4, 5, 10, 11, 257, 258] };
+        e4_single(ctx, "E4s", lens, &dists, st, f);
+    }
     let comps: Vec<Comp> = if ctx.quick() {
         let mut v = comp::zlib_grid_quick();
         v.extend(comp::other_comps());
@@ -98,6 +112,12 @@ pub fn shared_stream_spaces(ctx: &Ctx, st: &mut Local, f: Sink) {
     };
     let bigtexts: Vec<(usize, usize)> = if ctx.quick() { vec![(8, 70_000), (1, 140_000)] } else { vec![(8, 70_000), (1, 140_000), (2, 100_000), (3, 200_000), (6, 66_000), (8, 300_000)] };
     e6_compgrid(ctx, "E6big", &bigcomps, &bigtexts, st, &mut g);
+    // every alignment of a long match relative to the hash chain's position re-base thresholds
+    let acomps: Vec<Comp> = if ctx.quick() { vec![Comp::Zlib(6, 0, 15, 8), Comp::Libdeflate(6)] } else {
+        vec![Comp::Zlib(1, 0, 15, 8), Comp::Zlib(4, 0, 15, 8), Comp::Zlib(6, 0, 15, 8), Comp::Zlib(9, 0, 15, 9), Comp::ZlibNg(2), Comp::ZlibNg(6), Comp::Libdeflate(1), Comp::Libdeflate(6), Comp::Miniz(1), Comp::Miniz(6)]
+    };
+    let wins: Vec<(usize, usize)> = if ctx.quick() { vec![(65024 - 270, 65024 + 520)] } else { vec![(65024 - 300, 65024 + 520), (97280 - 300, 97280 + 520), (32768 - 300, 32768 + 300)] };
+    e6_align(ctx, "E6align", &acomps, &wins, st, &mut g);
     let sweep = if ctx.quick() { 96 } else { 512 };
     let kinds: &[usize] = if ctx.quick() { &[1, 3] } else { &[0, 1, 2, 3] };
     e6_lensweep(ctx, "E6len", &zlib_lensweep_comps(), kinds, sweep, st, &mut g);
@@ -113,13 +133,22 @@ pub fn c02_check(ctx: &Ctx, st: &mut Local, eng: &str, idx: u64, bytes: &[u8], s
     let s = ctx.cur;
     let rf = caught(|| s.decompress(bytes, false));
     let rt = caught(|| s.decompress(bytes, true));
-    if let Some(p) = is_panic(&rf).or(is_panic(&rt)) {
+    if let Some(p) = is_panic(&rf) {
         // totality of the analysis is C05's business
         st.outcome(eng, &format!("analysis-panic@{}", p.loc));
         return;
     }
     let rf = rf.unwrap();
-    let rt = rt.unwrap();
+    // a panic of the verify=true call is again C05's business, but it must not hide what the
+    // verify=false call returned: that result is judged below on its own
+    let rt_panic = is_panic(&rt).map(|p| p.loc.clone());
+    let rt: R<Split> = match rt {
+        Ok(r) => r,
+        Err(_) => match &rf {
+            Ok(r) => Ok(r.clone()),
+            Err(e) => Err(e.clone()),
+        },
+    };
     let r = match &rf {
         Err(_) => {
             if rt.is_ok() {
@@ -191,7 +220,10 @@ pub fn c02_check(ctx: &Ctx, st: &mut Local, eng: &str, idx: u64, bytes: &[u8], s
             }
         }
     }
-    st.outcome(eng, "accepted-and-rebuilt-exactly");
+    match rt_panic {
+        Some(loc) => st.outcome(eng, &format!("accepted-and-rebuilt-exactly(verify=true panics@{}: C05)", loc)),
+        None => st.outcome(eng, "accepted-and-rebuilt-exactly"),
+    }
 }
 
 pub fn first_line(s: &str) -> String {
@@ -308,8 +340,8 @@ pub fn run_c03(ctx: &Ctx, st: &mut Local) {
     // (the hook exposes exactly the plaintext/consumed pair the API returns when it accepts)
     let dists = if ctx.quick() { e4_quick_dists() } else { (1..=32768u32).map(|d| d as u16).collect() };
     let mut g = |st: &mut Local, eng: &str, i: u64, c: &StreamCase| {
-        let full = i % 24 == 0 || !ctx.quick();
-        if full && c.bytes.len() > 0 && i % 3 != 2 {
+        let full = i % 40 == 0 || !ctx.quick();
+        if full && !c.bytes.is_empty() {
             c03_check(ctx, st, eng, i, &c.bytes, c.plain.as_deref());
         }
         c03_parser_check(ctx, st, eng, i, &c.bytes, c.plain.as_deref());
@@ -345,7 +377,7 @@ fn all_literals(ctx: &Ctx, name: &str, st: &mut Local, f: Sink) {
         return;
     }
     let mut idx = 0;
-    for variant in 0..3 {
+    for variant in 0..6 {
         let i = idx;
         idx += 1;
         if ctx.sel.mine(i) {
@@ -366,7 +398,16 @@ fn all_literals(ctx: &Ctx, name: &str, st: &mut Local, f: Sink) {
                 }
             }
         }
-        let blk = if variant == 0 { Block::Fixed { toks } } else { Block::Dyn { hdr: default_header(&toks), toks } };
+        let blk = if variant == 0 {
+            Block::Fixed { toks }
+        } else if variant >= 3 {
+            // maximally skewed codes in three rotations: every literal gets a 15-bit code in one of them
+            let used: Vec<usize> = (0..=256).collect();
+            let ll = crate::streams::skewed_lengths(257, &used, (variant - 3) * 86, 15);
+            Block::Dyn { hdr: header_from_lengths(&ll, &[1, 1]), toks }
+        } else {
+            Block::Dyn { hdr: default_header(&toks), toks }
+        };
         let s = Stream { blocks: vec![blk], final_pad: 0 };
         let bytes = serialise(&s);
         let case = StreamCase { stream_len: bytes.len(), plain: Some(plaintext(&s)), bytes, descr: format!("all literals variant {}", variant) };
@@ -376,7 +417,7 @@ fn all_literals(ctx: &Ctx, name: &str, st: &mut Local, f: Sink) {
         ctx.end();
     }
     let e = st.eng(name);
-    e.bound = "all 256 literals under the fixed code, a flat dynamic code and a skewed dynamic code".into();
+    e.bound = "all 256 literals under the fixed code, a flat dynamic code, a skewed dynamic code and three rotations of a maximally skewed code (15-bit codes)".into();
     e.exhaustive = true;
 }
 
